@@ -159,26 +159,50 @@ theorem used_pos (w n : Nat) : 1 ≤ used w n := by
 theorem lt_of_used_le (w n j : Nat) (hw : 0 < w) (h : used w n ≤ j) : n < 2 ^ (w * j) :=
   lt_of_lt_of_le (used_upper w n hw) (Nat.pow_le_pow_right (by omega) (Nat.mul_le_mul_left w h))
 
-/-- bn_mod_pre_barrt then bn_mod_barrt on a ≥ 0, m > 0: the residue on every path; on the Barrett path at most two corrections -/
-theorem modBarrtFull_nonneg (w : Nat) (hw : 2 ≤ w) (a m : Int) (hm : 0 < m) (ha : 0 ≤ a) :
+/-- the residue of a negative number from the residue of its magnitude: what `if (neg && c != 0) c = m - c` computes -/
+theorem neg_residue (a m : Int) (hm : 0 < m) : a % m = if (-a) % m = 0 then 0 else m - (-a) % m := by
+  have h1 := Int.emod_add_mul_ediv (-a) m
+  have h2 := Int.emod_nonneg (-a) hm.ne'
+  have h3 := Int.emod_lt_of_pos (-a) hm
+  generalize (-a) % m = r at h1 h2 h3 ⊢
+  generalize (-a) / m = q at h1
+  obtain rfl : a = -(r + m * q) := by linarith
+  split
+  · next h =>
+    subst h
+    exact Int.emod_eq_zero_of_dvd ⟨-q, by ring⟩
+  · next h =>
+    have e : -(r + m * q) = (m - r) + m * (-q - 1) := by ring
+    rw [e, Int.add_mul_emod_self_left]
+    exact Int.emod_eq_of_lt (by omega) (by omega)
+
+/-- bn_mod_pre_barrt then bn_mod_barrt for EVERY integer a, m > 0 (code after fix 060ee71): the residue a mod m on every path; on the
+Barrett path at most two corrections -/
+theorem modBarrtFull_spec (w : Nat) (hw : 2 ≤ w) (a m : Int) (hm : 0 < m) :
     ∃ p, modBarrtFull w a m = some (a % m, p) ∧ ∀ wr n, p = BarrtPath.main wr n → n ≤ 2 := by
   have hmn : ¬ m ≤ 0 := not_le.mpr hm
   simp only [modBarrtFull, preBarrt, modBarrt, hmn, if_false]
-  have haa : (a.natAbs : Int) = a := Int.natAbs_of_nonneg ha
   have hma : (m.natAbs : Int) = m := Int.natAbs_of_nonneg hm.le
   have hmt : (m.toNat : Int) = m := Int.toNat_of_nonneg hm.le
+  have hc0 : (0 : Int) ≤ (a.natAbs : Int) := Int.natCast_nonneg _
   by_cases h1 : a.natAbs < m.natAbs
   · refine ⟨.early, ?_, by intro _ _ h; cases h⟩
     simp only [h1, if_true]
-    have : a < m := by omega
-    rw [Int.emod_eq_of_lt ha this]
+    by_cases hneg : a < 0
+    · simp only [hneg, if_true]
+      have e : a % m = (a + m) % m := by
+        have h9 := Int.add_mul_emod_self_right a 1 m
+        rw [one_mul] at h9
+        exact h9.symm
+      rw [e, Int.emod_eq_of_lt (by omega) (by omega)]
+    · simp only [hneg, if_false]
+      rw [Int.emod_eq_of_lt (by omega) (by omega)]
   · simp only [h1, if_false]
     by_cases h2 : used w a.natAbs > 2 * used w m.toNat
     · exact ⟨.long, by simp only [h2, if_true], by intro _ _ h; cases h⟩
-    · simp only [h2, if_false, haa]
+    · simp only [h2, if_false]
       have hw0 : 0 < w := by omega
       have hmne : m.toNat ≠ 0 := by omega
-      -- bounds of m and a in terms of k = used(m)
       have hml := used_lower w m.toNat hmne
       have hmu := used_upper w m.toNat hw0
       have hau := lt_of_used_le w a.natAbs (2 * used w m.toNat) hw0 (by omega)
@@ -187,15 +211,28 @@ theorem modBarrtFull_nonneg (w : Nat) (hw : 2 ≤ w) (a m : Int) (hm : 0 < m) (h
       have hm2 : m < ((2 : Int) ^ w) ^ (used w m.toNat) := by
         rw [← pow_mul]; conv_lhs => rw [← hmt]
         exact_mod_cast hmu
-      have hc2 : a < ((2 : Int) ^ w) ^ (2 * used w m.toNat) := by
-        rw [← pow_mul, ← haa]; exact_mod_cast hau
-      obtain ⟨hv, hn⟩ := barrtCore_spec w (used w m.toNat) hw (used_pos w _) a m hm1 hm2 ha hc2
-      have han : ¬ a < 0 := not_lt.mpr ha
-      refine ⟨.main (barrtCore w (used w m.toNat) a m ((2 : Int) ^ (2 * used w m.toNat * w) / m)).2.1
-                    (barrtCore w (used w m.toNat) a m ((2 : Int) ^ (2 * used w m.toNat * w) / m)).2.2, ?_, ?_⟩
-      · simp only [han, if_false, hv]
+      have hc2 : (a.natAbs : Int) < ((2 : Int) ^ w) ^ (2 * used w m.toNat) := by
+        rw [← pow_mul]; exact_mod_cast hau
+      obtain ⟨hv, hn⟩ := barrtCore_spec w (used w m.toNat) hw (used_pos w _) (a.natAbs : Int) m hm1 hm2 hc0 hc2
+      refine ⟨.main (barrtCore w (used w m.toNat) (a.natAbs : Int) m ((2 : Int) ^ (2 * used w m.toNat * w) / m)).2.1
+                    (barrtCore w (used w m.toNat) (a.natAbs : Int) m ((2 : Int) ^ (2 * used w m.toNat * w) / m)).2.2, ?_, ?_⟩
+      · rw [hv]
+        by_cases hneg : a < 0
+        · have habs : (a.natAbs : Int) = -a := by omega
+          rw [habs, neg_residue a m hm]
+          by_cases hz : (-a) % m = 0
+          · simp [hz]
+          · simp [hz, hneg]
+        · have habs : (a.natAbs : Int) = a := by omega
+          rw [habs]
+          simp [hneg]
       · intro wr n h
         cases h
         exact hn
+
+/-- (kept) the non-negative case of modBarrtFull_spec -/
+theorem modBarrtFull_nonneg (w : Nat) (hw : 2 ≤ w) (a m : Int) (hm : 0 < m) (_ha : 0 ≤ a) :
+    ∃ p, modBarrtFull w a m = some (a % m, p) ∧ ∀ wr n, p = BarrtPath.main wr n → n ≤ 2 :=
+  modBarrtFull_spec w hw a m hm
 
 end Relic.Lemmas.NtMod
